@@ -155,7 +155,7 @@ class ConcRunner:
             self.steps += it0.steps
             self.snapshot = (it0, d0, init, vc)
         t_start = time.time()
-        budget = float(os.environ.get('VERIF_SCENARIO_BUDGET_S', '900'))
+        budget = float(os.environ.get('VERIF_SCENARIO_BUDGET_S') or ('2700' if os.environ.get('VERIF_TIER_RUNNING') == 'thorough' else '900'))
 
         class _Stop(Exception):
             pass
